@@ -26,6 +26,8 @@ func (f *FnEnc) mapHeapSort(key string) string {
 		return fmt.Sprintf("(Array Int (Array %s %s))", unsortKey(parts[2]), unsortKey(parts[4]))
 	case "len":
 		return "(Array Int (_ BitVec 64))"
+	case "rangevis": // map:rangevis:<K>:<id>  -- the keys a range-over-map loop has produced so far
+		return fmt.Sprintf("(Array %s Bool)", unsortKey(parts[2]))
 	}
 	panic("bad map heap key " + key)
 }
@@ -185,12 +187,34 @@ func (f *FnEnc) next(fr *Frame, st *State, R string, in *ssa.Next) {
 		return
 	}
 	mt := xt.Underlying().(*types.Map)
-	f.c.notes["range over map: each step yields an arbitrary present key"] = true
+	f.c.notes["range over map: each step yields a present key not produced before; a loop that writes no map of that type ends when every key has been produced"] = true
 	kT := tup.At(1).Type()
 	vT := tup.At(2).Type()
-	k := f.c.fresh("next_k", f.mapKeySort(mt))
+	ks := f.mapKeySort(mt)
+	k := f.c.fresh("next_k", ks)
 	has, v := f.mapGet(st, mt, it.L[0], k)
 	f.c.assume(R, implies(ok, and(not(eq(it.L[0], "0")), has)))
+	// the set of keys produced so far (specification-only state of the loop)
+	vk := f.rangeVisKey(fr, rng, mt)
+	vis := f.lazyHeap(st, vk)
+	f.c.assume(R, implies(ok, not(sel(vis, k))))
+	// Completeness: when the loop ends every key has been produced.  Go only
+	// promises that for entries present throughout (an entry removed and
+	// created again during the iteration may be skipped), so the fact is
+	// assumed only for a loop whose body has no map update or delete on that
+	// map type, and under the hypothesis that the map has the same keys as
+	// when the range statement started.  (A callee that removes a key and
+	// puts it back, under a contract saying the keys are unchanged, is not
+	// seen: listed as an assumption.)
+	if hs, okh := f.rangeStartHas[vk]; okh && !f.loopWritesMap(fr, in.Block(), mt) {
+		f.c.notes["range over map: a loop with no update or delete of that map type in its body, ending with the key set it started with, has produced every key (callees are taken at their contracts)"] = true
+		hasNow := f.c.fresh("rhas1", fmt.Sprintf("(Array %s Bool)", ks))
+		f.c.assume("true", eq(hasNow, sel(f.lazyHeap(st, f.mapHasKey(mt)), it.L[0])))
+		same := fmt.Sprintf("(forall ((k!q %s)) (! (= (select %s k!q) (select %s k!q)) :pattern ((select %s k!q))))", ks, hs, hasNow, hasNow)
+		all := fmt.Sprintf("(forall ((k!q %s)) (! (=> (select %s k!q) (select %s k!q)) :pattern ((select %s k!q)) :pattern ((select %s k!q))))", ks, hs, vis, vis, hs)
+		f.c.assume(R, implies(and(not(ok), same), all))
+	}
+	setHeap(st, vk, f.c.define("rvis", fmt.Sprintf("(Array %s Bool)", ks), ite(ok, sto(vis, k, "true"), vis)))
 	f.c.assume(R, implies(ok, f.wf(st, Val{T: mt.Key(), L: []string{k}})))
 	f.c.assume(R, implies(ok, f.wf(st, v)))
 	if _, inv := kT.(*types.Basic); inv && kT.(*types.Basic).Kind() == types.Invalid {
@@ -199,6 +223,57 @@ func (f *FnEnc) next(fr *Frame, st *State, R string, in *ssa.Next) {
 	out.L = append(out.L, f.zeroOrVal(kT, Val{T: mt.Key(), L: []string{k}}).L...)
 	out.L = append(out.L, f.zeroOrVal(vT, v).L...)
 	f.setVal(fr, in, out)
+}
+
+// loopWritesMap: does the loop headed by block head contain a map update or a
+// delete on a map with mt's key type?
+func (f *FnEnc) loopWritesMap(fr *Frame, head *ssa.BasicBlock, mt *types.Map) bool {
+	ks := f.mapKeySort(mt)
+	for _, li := range fr.loops {
+		if li.head != head {
+			continue
+		}
+		for b := range li.body {
+			for _, in := range b.Instrs {
+				switch in := in.(type) {
+				case *ssa.MapUpdate:
+					if m, ok := in.Map.Type().Underlying().(*types.Map); ok && f.mapKeySort(m) == ks {
+						return true
+					}
+				case ssa.CallInstruction:
+					if b, ok := in.Common().Value.(*ssa.Builtin); ok && (b.Name() == "delete" || b.Name() == "clear") {
+						return true
+					}
+				}
+			}
+		}
+		return false
+	}
+	return true
+}
+
+// rangeVisKey names the visited-set of one range-over-map statement.
+func (f *FnEnc) rangeVisKey(fr *Frame, rng *ssa.Range, mt *types.Map) string {
+	return fmt.Sprintf("map:rangevis:%s:%s_%s_d%d", sortKey(f.mapKeySort(mt)), sanitize(fr.fn.Name()), rng.Name(), fr.depth)
+}
+
+// rangeStart initialises the visited-set when the range statement is entered.
+func (f *FnEnc) rangeStart(fr *Frame, st *State, R string, rng *ssa.Range) {
+	mt, ok := rng.X.Type().Underlying().(*types.Map)
+	if !ok {
+		return
+	}
+	ks := f.mapKeySort(mt)
+	vk := f.rangeVisKey(fr, rng, mt)
+	setHeap(st, vk, fmt.Sprintf("((as const (Array %s Bool)) false)", ks))
+	if f.rangeStartHas == nil {
+		f.rangeStartHas = map[string]string{}
+	}
+	x := f.val(fr, rng.X)
+	// which keys the map has when the loop starts
+	h0 := f.c.fresh("rhas0", fmt.Sprintf("(Array %s Bool)", ks)) // (a constant, not a definition: it appears in patterns)
+	f.c.assume("true", eq(h0, ite(eq(x.L[0], "0"), fmt.Sprintf("((as const (Array %s Bool)) false)", ks), sel(f.lazyHeap(st, f.mapHasKey(mt)), x.L[0]))))
+	f.rangeStartHas[vk] = h0
 }
 
 func (f *FnEnc) zeroOrVal(want types.Type, v Val) Val {
